@@ -1340,6 +1340,81 @@ func stressLeaks(seed int64, scale int) int {
 			failsafe.NewExecutor[int](rp, rl, bh).WithContext(ctx).GetWithExecution(fn)
 		}
 	}
+	// a losing hedge branch is cancelled while its retry policy is still classifying the attempt's failure (the cancellation arrives
+	// between the loop's own check and RecordResult), and another branch's function returns after that: every branch goroutine ends
+	for i := 0; i < scale; i++ {
+		errH1, errH2 := errors.New("hedge 1 failed"), errors.New("hedge 2 failed")
+		gateA, gateB, gateC := make(chan struct{}), make(chan struct{}), make(chan struct{})
+		inPredicate, hedge2Started := make(chan struct{}), make(chan struct{})
+		var once, calls atomic.Int32
+		rp2 := retrypolicy.Builder[int]().HandleIf(func(_ int, err error) bool {
+			if err == errH1 {
+				if once.Add(1) == 1 {
+					close(inPredicate)
+				}
+				<-gateB
+				return true
+			}
+			return err != nil
+		}).WithMaxRetries(2).Build()
+		hp2 := hedgepolicy.BuilderWithDelay[int](2 * time.Millisecond).WithMaxHedges(2).Build()
+		done := make(chan struct{})
+		go func() {
+			failsafe.NewExecutor[int](hp2, rp2).Get(func() (int, error) {
+				switch calls.Add(1) {
+				case 1:
+					<-gateA
+					return 1, nil
+				case 2:
+					return 0, errH1
+				case 3:
+					close(hedge2Started)
+					<-gateC
+					return 0, errH2
+				}
+				return 0, errX
+			})
+			close(done)
+		}()
+		ok := true
+		for _, ch := range []chan struct{}{inPredicate, hedge2Started} {
+			select {
+			case <-ch:
+			case <-time.After(2 * time.Second):
+				ok = false
+			}
+		}
+		close(gateA) // the first attempt wins: both hedges are cancelled
+		select {
+		case <-done:
+		case <-time.After(2 * time.Second):
+			ok = false
+		}
+		close(gateB) // hedge 1 finishes handling its (now cancelled) attempt …
+		time.Sleep(5 * time.Millisecond)
+		close(gateC) // … then hedge 2's function returns
+		if !ok {
+			v.add("hedge around retry: the scripted interleaving did not come about")
+		}
+		runs++
+	}
+	// timers are released with the execution too: executions that arrive already cancelled at a Timeout (cancelled context, a cancelled
+	// async execution) complete at once, and the Timeout's timer must not stay armed and report a timeout long afterwards
+	{
+		var late atomic.Int32
+		to := timeout.Builder[int](15 * time.Millisecond).OnTimeoutExceeded(func(failsafe.ExecutionDoneEvent[int]) { late.Add(1) }).Build()
+		for i := 0; i < 4; i++ {
+			ctx, cancel := context.WithCancel(context.Background())
+			cancel()
+			failsafe.NewExecutor[int](to).WithContext(ctx).GetWithExecution(func(e failsafe.Execution[int]) (int, error) { return 1, nil })
+			failsafe.NewExecutor[int](retrypolicy.Builder[int]().WithMaxRetries(1).Build(), to).WithContext(ctx).GetWithExecution(func(e failsafe.Execution[int]) (int, error) { return 0, errX })
+			runs += 2
+		}
+		time.Sleep(45 * time.Millisecond)
+		if late.Load() != 0 {
+			v.add(fmt.Sprintf("a Timeout's timer stayed armed after its execution had completed: %d timeout events reported afterwards", late.Load()))
+		}
+	}
 	// a hedge around a retry policy with a very long delay: the first attempt fails only after the hedge has started and enters its
 	// retry delay; the hedge wins. The losing branch is cancelled and must leave its delay at once, not sit it out.
 	for i := 0; i < 3*scale; i++ {
